@@ -13,7 +13,8 @@ ASSUMPTIONS = [
     "read buffer are modelled and compared with Go on every case; proved only per key: printable ASCII, CR and the "
     "two paste markers decode to the keys of the theorem, a cut marker waits for the next Read",
     "editing/history keys (Backspace, ^U, ^W, ^K, ^L, arrows, Home/End) are outside the quantifier: the cursor is at the end of the line",
-    "string literals contain no backslash and no line break (an Enter inside a literal is entered as a space by the console)",
+    "string literals contain no line break (an Enter inside a literal is entered as a space by the console); backslash "
+    "escapes inside literals are in scope",
     "strings.TrimSpace = trimming unicode.IsSpace runes on both ends; []rune->string maps surrogates to U+FFFD",
 ]
 
@@ -39,8 +40,13 @@ BODY = [";", " ", "  ", "a", "b;c", "it", "OTHER", "--", "(", ")", ",", "Ã©", "ä
 def gen_literal(rng):
     q = rng.choice("'\"")
     other = '"' if q == "'" else "'"
-    body = "".join(rng.choice(BODY).replace("OTHER", other) for _ in range(rng.randrange(0, 5)))
-    return q + body + q
+    pieces = [rng.choice(BODY).replace("OTHER", other) for _ in range(rng.randrange(0, 5))]
+    if rng.chance(0.3):
+        # backslash escapes inside the literal (in scope since the theorems cover them): the escaped rune
+        # never closes the literal and never ends the statement
+        for _ in range(rng.randrange(1, 3)):
+            pieces.insert(rng.randrange(0, len(pieces) + 1), rng.choice(["\\" + q, "\\\\", "\\;", "\\" + other, "\\n"]))
+    return q + "".join(pieces) + q
 
 
 def gen_statement(rng):
